@@ -11,7 +11,7 @@ import itertools
 from ..program import AnalysisError, Inconclusive, ClassInfo
 from ..values import (Const, Sym, CRef, FRef, Bound, Obj, Tup, App, New,
                       Raise, Coll, walk)
-from ..interp import Interp, Hooks, prologue_helpers
+from ..interp import Interp, Hooks, prologue_helpers, is_private_helper
 from ..templates import (TemplateHooks, extract, generic_instances, show,
                          to_term, make_hole)
 from ..formulas import LANGS
@@ -303,8 +303,18 @@ class _EntryHooks(TemplateHooks, GraphHooks):
         self.graph_init(prog)
         self.entry = entry
 
+    fair_arg = None
+
     def inline(self, I, fi, args):
-        return fi is self.entry or fi.qn in prologue_helpers(self.entry)
+        if fi is self.entry or fi.qn in prologue_helpers(self.entry):
+            return True
+        # a private helper next to the entry that receives the fairness
+        # constraints: the fairness handling has been moved into it
+        if self.fair_arg is not None and is_private_helper(fi, self.entry) \
+                and any(a == self.fair_arg for a in args) \
+                and not any(f is fi for f in I.stack):
+            return True
+        return False
 
     def call(self, I, fv, args, kw, path, node):
         if isinstance(fv, FRef) and fv.fi is self.lnot and len(args) == 1:
@@ -351,6 +361,8 @@ def rule_f35(prog):
         for Fval, label in ((Const(None), 'F=None'),
                             (Sym('F', ('b', 'list')), 'F given')):
             hooks = _EntryHooks(prog, f)
+            if isinstance(Fval, Sym):
+                hooks.fair_arg = Fval
             I = Interp(prog, hooks, rule='R-F-3')
             path = I.new_path()
             al = prog.alphabet(LANGS[lang])
@@ -381,6 +393,14 @@ def rule_f35(prog):
                     else:
                         r5.ok()
                 else:
+                    delegated = [e for e in p.log if e.kind == 'call' and
+                                 any(a == Fval for a in (e.args[0] if e.args
+                                                         else ()))]
+                    if not fair_calls and delegated:
+                        # F is handed to a routine that is not interpreted
+                        raise Inconclusive(
+                            'R-F-5', '%s.modelcheck hands F to %r' % (
+                                lang, delegated[0].target), f.where())
                     if not fair_calls:
                         r5.fail(Finding(
                             PROP, 'R-F-5', f.where(), f.short(),
